@@ -839,6 +839,13 @@ class Executor(object):
         if any(v >= 65536 for c in coords for v in c[:2]):
             out.add('pool:xy>=65536')
         for a, b in itertools.combinations(sorted(set(coords)), 2):
+            if a[2] == b[2] and (a[0] == b[0] or a[1] == b[1]):
+                d = abs(a[0] - b[0]) + abs(a[1] - b[1])
+                for g in (10 ** 6, 10 ** 4, 10 ** 3):
+                    if d and d % g == 0:
+                        out.add('pool:twins-differing-by-k*%d' % g)
+                        break
+        for a, b in itertools.combinations(sorted(set(coords)), 2):
             out.add('pool:' + coord_relation(a, b))
         dks = sorted(set(k[1] for k in self.keys))
         if len(dks) > 1:
@@ -892,6 +899,21 @@ def pools(draw, variant, collapse_dims, no_twins=False):
     base = (_xy(draw, z), _xy(draw, z), z)
     coords = [base]
     n_extra = draw(st.integers(1, 5))
+    if draw(st.integers(0, 3)) == 0:
+        # digit-group twins: addresses that differ by exactly k * 10^3 / 10^4 / 10^6 in x or in y (the group sizes
+        # of the tc and mp directory layouts), which needs levels with more than 10^6 rows and columns
+        z = draw(st.sampled_from([20, 21, 21, 22]))
+        small = [0, 5, 7, 999, 1000, 12345]
+        base = (draw(st.sampled_from(small)), draw(st.sampled_from(small)), z)
+        coords = [base]
+        for _ in range(n_extra):
+            x, y, _z = coords[draw(st.integers(0, len(coords) - 1))]
+            step = draw(st.sampled_from([1, 1, 2])) * draw(st.sampled_from([10 ** 3, 10 ** 4, 10 ** 6, 10 ** 6]))
+            axis = draw(st.sampled_from(['x', 'y', 'y', 'xy']))
+            c = (x + step if 'x' in axis else x, y + step if 'y' in axis else y, z)
+            if _valid(c) and c not in coords:
+                coords.append(c)
+        n_extra = 0
     for _ in range(n_extra):
         ref = coords[draw(st.integers(0, len(coords) - 1))]
         kind = draw(st.sampled_from(['swap', 'other-level', 'other-level', 'neighbour', 'neighbour', 'block',
@@ -954,8 +976,7 @@ def enum_pools(variant, tier, collapse_dims):
     elif fam.startswith('file'):
         pools_ = [[[0, 0, 0, None], [0, 0, 1, None], [1, 0, 1, None], [0, 1, 1, None]],
                   [[999, 1000, 10, None], [1000, 999, 10, None], [999, 1000, 11, None], [0, 999, 10, None]],
-                  [[9999, 10000, 20, None], [10000, 9999, 20, None], [999999, 1000000, 20, None],
-                   [1000000, 999999, 20, None]]]
+                  [[5, 7, 21, None], [5, 1000007, 21, None], [1000005, 7, 21, None], [10005, 7, 21, None]]]
     else:
         pools_ = [[[0, 0, 0, None], [0, 0, 1, None], [1, 0, 1, None], [0, 1, 1, None]],
                   [[1, 2, 2, None], [2, 1, 2, None], [1, 2, 3, None], [0, 0, 0, None]],
